@@ -170,15 +170,16 @@ func (c06) Thresholds(tier string) map[string]int64 {
 		"host-configuration:nil-function-and-command-registered":  600,
 		"host-configuration:marked-up-lines-of-every-marker-form": 600,
 		"host-configuration:broken-markup-reached-three-times":    600,
-		"faults-not-reached":                 100,
-		"post-error-next-calls":              60000,
-		"long-non-yielding-run":              1,
-		"recording-store":                    1000,
-		"default-store":                      1000,
-		"post-error:line":                    500,
-		"post-error:end":                     500,
-		"post-error:error":                   5,
-		"restored-from-own-initial-snapshot": 800,
+		"built-ins-called-with-unusual-numbers":                   6000,
+		"faults-not-reached":                                      100,
+		"post-error-next-calls":                                   60000,
+		"long-non-yielding-run":                                   1,
+		"recording-store":                                         1000,
+		"default-store":                                           1000,
+		"post-error:line":                                         500,
+		"post-error:end":                                          500,
+		"post-error:error":                                        5,
+		"restored-from-own-initial-snapshot":                      800,
 	}
 	for _, f := range exprFaults {
 		th["reached:"+f.name] = 15
@@ -360,6 +361,49 @@ func (p c06) hostConfigurations(c *core.Ctx) {
 		return
 	}
 	c.Feature("host-configuration:marked-up-lines-of-every-marker-form")
+
+	// ---- the built-ins with numbers nobody passes on purpose: any result or an error, never a panic
+	{
+		hostile := []string{"-1", "-2", "-400", "400", "18", "1000000", "0.5", "-0.5", "1 / 0", "-1 / 0", "0 / 0", "1000000 * 1000000 * 1000000 * 1000000", "-0", "9007199254740993", "4294967296", "-2147483649", "1" + strings.Repeat("0", 320)}
+		h := func() string { return hostile[r.Intn(len(hostile))] }
+		x := func() string {
+			return r.Pick("1234.5", "-0.5", "2.5", "0", "1e0"[:1]+"23456789.987654321", "1 / 0", "0 / 0", "-7")
+		}
+		for i := 0; i < 10; i++ {
+			var e string
+			switch r.Intn(9) {
+			case 0, 1:
+				e = "round_places(" + x() + ", " + h() + ")"
+			case 2:
+				e = r.Pick("round", "floor", "ceil", "inc", "dec", "decimal", "integer", "int", "number", "string", "bool") + "(" + h() + ")"
+			case 3:
+				e = "dice(" + h() + ")"
+			case 4:
+				e = "random_range(" + h() + ", " + h() + ")"
+			case 5:
+				e = "round_places(" + h() + ", " + r.Pick("0", "1", "8", "17", "18", "19", "308", "309") + ")"
+			case 6:
+				e = "string(round_places(" + x() + ", " + h() + ")) + \"x\""
+			case 7:
+				e = "visited_count(string(" + h() + "))"
+			default:
+				e = x() + " % (" + h() + ")"
+			}
+			script = "title: Start\n---\nv {" + e + "}\nafter\n===\n"
+			rr, err, pan = mon.Create(nil, "s", []string{script})
+			if err != nil || pan != "" {
+				c.Violate("a script that calls a built-in failed to load", map[string]any{"readers": []string{script}, "error": fmt.Sprint(err), "panic": pan})
+				return
+			}
+			for k := 0; k < 3; k++ {
+				if o := rr.Next(0); o.Kind == mon.KPanic {
+					c.Violate("Next panicked on a built-in called with an unusual number", map[string]any{"readers": []string{script}, "expression": e, "observed": o.String()})
+					return
+				}
+			}
+			c.Feature("built-ins-called-with-unusual-numbers")
+		}
+	}
 
 	// ---- a line whose markup is broken is an error EVERY time it is reached (the host restores the node entry in
 	// between, which says where the dialogue resumes - an error does not)
